@@ -598,6 +598,7 @@ func c17Cli(c *core.Ctx) {
 		from map[string]interface{}
 		got  map[string]interface{}
 		note string
+		hist []string
 	}
 	var infos []recInfo
 	for s := 0; s < nseq; s++ {
@@ -625,11 +626,13 @@ func c17Cli(c *core.Ctx) {
 		}
 		from := w.project(po)
 		n := 3 + rng.Intn(8)
+		var hist []string
 		for k := 0; k <= n; k++ {
 			st := cliRandomStep(rng, k == n)
 			got, note := w.apply(po, st, rng.Intn(2) == 0)
-			recs = append(recs, map[string]interface{}{"w": w.json(), "act": st.act, "arg": st.arg, "from": from, "to": got})
-			infos = append(infos, recInfo{w, st, from, got, note})
+			recs = append(recs, map[string]interface{}{"w": w.json(), "act": st.act, "arg": st.arg, "from": from, "to": got, "first": k == 0})
+			hist = append(hist, st.act+"("+cliCanon(st.arg)+")")
+			infos = append(infos, recInfo{w, st, from, got, note, append([]string{}, hist...)})
 			if strings.HasPrefix(note, "@@") || strings.HasPrefix(note, "panic") {
 				report(w, st, from, map[string]interface{}{}, got, note, "random sequence")
 			}
@@ -652,7 +655,7 @@ func c17Cli(c *core.Ctx) {
 				to2[k] = v
 			}
 			to2["name"] = asStr(to["name"]) + "x"
-			recs = append(recs, map[string]interface{}{"w": m["w"], "act": m["act"], "arg": m["arg"], "from": m["from"], "to": to2})
+			recs = append(recs, map[string]interface{}{"w": m["w"], "act": m["act"], "arg": m["arg"], "from": m["from"], "to": to2, "first": true})
 			corrupted = len(recs) - 1
 			break
 		}
@@ -688,6 +691,12 @@ func c17Cli(c *core.Ctx) {
 		}
 		in := infos[i]
 		report(in.w, in.st, in.from, asMap(bl[1]), in.got, in.note, "random sequence, judged by Trace_CliOptions")
+	}
+	// the outcome of a whole sequence against the one the specification reaches from its start
+	for _, b := range asList(l[3]) {
+		bl := asList(b)
+		in := infos[asInt(bl[0])-1]
+		report(in.w, in.st, in.from, asMap(bl[1]), in.got, in.note, "random sequence: outcome of the whole sequence "+strings.Join(in.hist, ", ")+", judged by Trace_CliOptions")
 	}
 	if corrupted >= 0 && !sawCorrupted {
 		c.Inconclusive("Trace_CliOptions accepted a record whose outcome had been altered (self-test of the binding)")
